@@ -267,13 +267,15 @@ func runSortSeam(c sortCase) *core.Failure {
 func c03KeyAlphabet(k model.Kind) []model.Cell {
 	switch k {
 	case model.Int:
-		return []model.Cell{model.I(-1), model.I(0), model.I(2)}
+		// extremes of opposite sign: a comparison by subtraction would overflow
+		return []model.Cell{model.I(math.MinInt64), model.I(-3), model.I(0), model.I(7), model.I(math.MaxInt64)}
 	case model.Float:
 		return []model.Cell{model.F(-1.5), model.F(0), model.F(2), model.NaN()}
 	case model.Bool:
 		return []model.Cell{model.B(false), model.B(true)}
 	case model.String:
-		return []model.Cell{model.S(""), model.S("a"), model.S("b"), model.Null()}
+		// "", "a", "abc": each a proper prefix of the next, lengths differing by 1 and by 2+
+		return []model.Cell{model.S(""), model.S("a"), model.S("abc"), model.S("b"), model.Null()}
 	case model.Enum:
 		// declared order is the reverse of alphabetical
 		return []model.Cell{model.S("z"), model.S("m"), model.S("a"), model.Null()}
@@ -585,7 +587,7 @@ func init() {
 		ID:    "C03",
 		Level: "model_checking",
 		Rule: "case = (frame cells, index shape, order list[, seam entry]) enumerated exhaustively per layer " +
-			"(L1: all frames n<=N over per-type 3-value+null alphabets x {0,1} second key x all 40 order lists x 7 index shapes; " +
+			"(L1: all frames n<=N over per-type alphabets of 3-5 values + null (int extremes of opposite sign, strings that are prefixes of each other) x {0,1} second key x all 40 order lists x 7 index shapes; " +
 			"L2: all int sequences over {0,1} and {0,1,2} up to the stated lengths (all 7 index shapes for lengths 11..15, one rotating shape otherwise), ninther-size base patterns on all shapes in both directions with all <=2 point deviations; " +
 			"L3: real quickSort/heapSort entered through the seam on all small sequences/permutations and sub-ranges, plus adversarial inputs). " +
 			"Non-trivial = the keys hold at least two distinct values (L1) / length >= 2 (others); distinct by enumeration index.",
